@@ -324,6 +324,29 @@ PROPS = {
         },
         "assumptions": [LIBLZMA],
     },
+    "C13": {
+        "level": "exploration",
+        "variants": {
+            "quick": [("rel", {})],
+            "thorough": [("rel", {"timeout": 4 * 3600})],
+        },
+        "floors": ["repetitions", "partitions", "mt_runs"],
+        "rule": "case = (writer in {LZMA x4 framings, LZMA2 plain / chunked, XZ with and without block size and pre-filters, "
+                "LZIP, LZMA2WriterMT, LZIPWriterMT} x in-range options x data family x length). Reference = one write with "
+                "the allocator poisoning every fresh non-zeroed block with 0xA5. Variations that must give byte-identical "
+                "output: (a) a second run after heap churn with poison 0x3C; (b) 6 random write partitions (LZMA, LZIP, MT "
+                "writers always; LZMA2/XZ only without chunk/block size, as the property says); (c) MT writers with 2, 3, 5 "
+                "and 16 workers under seeded failpoint schedules. Cell = writer|variation axis; non-trivial = a real "
+                "variation was applied (more than one write / more than one unit / non-empty data).",
+        "manifest": {
+            "text": "Exploration with a metamorphic oracle (same input and options => same bytes) across repetition with a "
+                    "poisoning allocator, write partitions, worker counts and sampled schedules; valgrind memcheck on a "
+                    "sample adds uninitialised-value detection even when outputs agree.",
+            "note": "lz_pos bias on/off is not claimed to leave the output unchanged.",
+            "technique": "runtime monitoring: metamorphic determinism oracle + poisoning allocator + failpoint schedules",
+        },
+        "assumptions": ["schedules are sampled"],
+    },
     "C16": {
         "level": "exploration",
         "variants": {
